@@ -50,6 +50,21 @@ class AbstractSubstitutionModel(SubstitutionModel, ABC):
         return -torch.sum(torch.diagonal(Q, dim1=-2, dim2=-1) * self.frequencies, -1)
 
 
+def identity_at_zero(P: torch.Tensor, branch_lengths: torch.Tensor) -> torch.Tensor:
+    """Replace transition matrices of zero-length branches with the identity matrix.
+
+    An eigendecomposition returns P(0) only up to rounding and an invariant (zero
+    rate) category turns that noise into a spurious probability of change at
+    variable sites. The correction is detached: the values become exact and the
+    gradient with respect to the branch length is unchanged.
+    """
+    zero = (branch_lengths == 0.0).unsqueeze(-1).unsqueeze(-1)
+    if torch.any(zero):
+        eye = torch.eye(P.shape[-1], dtype=P.dtype, device=P.device)
+        P = torch.where(zero, P + (eye - P).detach(), P)
+    return P
+
+
 class SymmetricSubstitutionModel(AbstractSubstitutionModel, ABC):
     def __init__(self, id_: ID, frequencies: AbstractParameter):
         super().__init__(id_, frequencies)
@@ -62,7 +77,7 @@ class SymmetricSubstitutionModel(AbstractSubstitutionModel, ABC):
         S = sqrt_pi @ Q @ sqrt_pi_inv
         e, v = self.eigen(S)
         offset = branch_lengths.dim() - e.dim() + 1
-        return (
+        P = (
             (sqrt_pi_inv @ v).reshape(
                 e.shape[:-1] + (1,) * offset + sqrt_pi_inv.shape[-2:]
             )
@@ -74,6 +89,7 @@ class SymmetricSubstitutionModel(AbstractSubstitutionModel, ABC):
                 e.shape[:-1] + (1,) * offset + sqrt_pi_inv.shape[-2:]
             )
         )
+        return identity_at_zero(P, branch_lengths)
 
     def eigen(self, Q: torch.Tensor) -> torch.Tensor:
         return torch.linalg.eigh(Q)
